@@ -325,10 +325,11 @@ func GenSchema(r *Rng) *GSchema {
 		inputs = append(inputs, in)
 		s.add(in)
 	}
+	wideInputs := r.Chance(1, 3) // a schema has several wide input objects, or none
 	for i, in := range inputs {
 		sc := map[string]bool{}
 		nfields := r.Range(1, 5)
-		if r.Chance(1, 4) {
+		if wideInputs && r.Chance(2, 3) {
 			nfields = r.Range(9, 12) // wide input objects (indexed lookups kick in at sizes like these)
 		}
 		for j, m := 0, nfields; j < m; j++ {
